@@ -96,6 +96,8 @@ class ReactorStub:
 
 
 class PeerWorld:
+    _runs = 0
+
     def __init__(self, hold=9, local_as=65000, peer_as=65001, passive=False, extra='', static='', openwait=60, tail='', route_refresh=True, receive=True) -> None:
         RIB._cache.clear()
         Connection.identifier.clear()
@@ -376,7 +378,8 @@ class PeerWorld:
                 saved['close'](self.peer.proto.connection)
             loop.close()
             asyncio.set_event_loop(None)
-            gc.collect()
+            PeerWorld._runs += 1
+            gc.collect() if PeerWorld._runs % 8 == 0 else gc.collect(0)   # full collections are most of the cost of a short scenario
         return self.events
 
     # -- canned remote behaviour ------------------------------------------------------------------
